@@ -126,6 +126,86 @@ def selftest(ctx: Ctx) -> None:
                            '; '.join(fails[:3]) or pr.stderr[-300:])
 
 
+def corpora(ctx: Ctx) -> None:
+    """(iv) the independent corpora committed under /verif: every confirmed breaking change of `seeded/` for which this
+    property's check is on record as firing must still be reported (exit 1) by it, and it must stay silent (exit 0) on every
+    behaviour-preserving change of `benign/`.  Patched copies live in a temporary directory outside /repo and /verif."""
+    if os.environ.get('AIUTI_NO_SELFTEST'):
+        return
+    import concurrent.futures as cf
+    import json
+    import shutil
+    import tempfile
+    verif = os.path.dirname(os.path.dirname(os.path.abspath(__file__)))
+    repo = os.environ.get('AIUTI_REPO', '/repo')
+    # the corpora say something about the *checker*; they were recorded against one tree and are replayed only on that tree
+    # (on any other tree a patch may not apply, or apply to something it was never judged on)
+    import hashlib
+    try:
+        base_files = json.load(open(os.path.join(verif, 'corpora_base.json')))['files']
+    except (OSError, ValueError, KeyError):
+        base_files = None
+    if base_files is not None:
+        for rel, digest in base_files.items():
+            pth = os.path.join(repo, rel)
+            if not os.path.exists(pth) or hashlib.sha256(open(pth, 'rb').read()).hexdigest() != digest:
+                ctx.note(f'corpora not replayed: {rel} differs from the tree the corpora were recorded against')
+                ctx.extra['corpora'] = {'skipped': f'{rel} differs from the recorded tree'}
+                return
+    jobs = []
+    sd = os.path.join(verif, 'seeded')
+    for sid in sorted(os.listdir(sd)) if os.path.isdir(sd) else []:
+        mp = os.path.join(sd, sid, 'meta.json')
+        if not os.path.exists(mp):
+            continue
+        m = json.load(open(mp))
+        if (m.get('checks_that_fire') or {}).get(ctx.prop, {}).get('exit') == 1 and (m.get('confirmation') or {}).get('confirmed'):
+            jobs.append(('seeded', sid, os.path.join(sd, sid, 'patch.diff'), 1))
+    bd = os.path.join(verif, 'benign')
+    for bid in sorted(os.listdir(bd)) if os.path.isdir(bd) else []:
+        pd = os.path.join(bd, bid, 'patch.diff')
+        if os.path.exists(pd):
+            jobs.append(('benign', bid, pd, 0))
+    if not jobs:
+        ctx.note('no corpora found under /verif/seeded, /verif/benign')
+        return
+    base = tempfile.mkdtemp(prefix='aiuti-corpora-')
+
+    def one(job):
+        kind, cid, patch, want = job
+        d = tempfile.mkdtemp(prefix=cid + '-', dir=base)
+        try:
+            shutil.copytree(os.path.join(repo, 'aiuti'), os.path.join(d, 'aiuti'), ignore=shutil.ignore_patterns('__pycache__'))
+            a = subprocess.run(['git', 'apply', '--unsafe-paths', f'--directory={d}', patch], cwd=d, capture_output=True, text=True)
+            if a.returncode:
+                a = subprocess.run(['patch', '-p1', '-s', '-i', patch], cwd=d, capture_output=True, text=True)
+                if a.returncode:
+                    return kind, cid, want, None, 'patch does not apply to the current tree'
+            evd = os.path.join(d, '_ev')
+            env = dict(os.environ, AIUTI_REPO=d, AIUTI_EVIDENCE_DIR=evd, PYTHONPATH=verif, AIUTI_NO_SELFTEST='1')
+            r = subprocess.run([sys.executable, '-m', 'sa.check', ctx.prop], cwd=verif, env=env, capture_output=True, text=True, timeout=600)
+            first = next((ln.strip() for ln in (r.stdout + r.stderr).splitlines() if 'violation rule=' in ln or ln.startswith('ANALYSIS-ERROR')), '')
+            return kind, cid, want, r.returncode, first[:160]
+        finally:
+            shutil.rmtree(d, ignore_errors=True)
+    results = []
+    try:
+        with cf.ThreadPoolExecutor(min(16, os.cpu_count() or 4)) as ex:
+            results = list(ex.map(one, jobs))
+    finally:
+        shutil.rmtree(base, ignore_errors=True)
+    stale = [(k, c) for k, c, w, rc, msg in results if rc is None]
+    bad = [(k, c, w, rc, msg) for k, c, w, rc, msg in results if rc is not None and rc != w]
+    ctx.extra['corpora'] = {'seeded_rechecked': sum(1 for r in results if r[0] == 'seeded' and r[3] is not None),
+                            'benign_rechecked': sum(1 for r in results if r[0] == 'benign' and r[3] is not None),
+                            'not_applicable_to_this_tree': [c for _, c in stale][:20],
+                            'disagreements': [f'{k} {c}: expected exit {w}, got {rc}: {msg}' for k, c, w, rc, msg in bad][:20]}
+    if bad:
+        ctx.undecided('CORPORA', f'checker validation against the independent corpora for {ctx.prop}', 'seeded/ benign/',
+                      '; '.join(f'{k} {c}: expected exit {w}, got {rc}' for k, c, w, rc, _ in bad[:5]))
+
+
 def extend(ctx: Ctx) -> None:
     crosscheck(ctx)
     selftest(ctx)
+    corpora(ctx)
